@@ -146,6 +146,18 @@ PROPS["C15"] = {
     "assumptions": H3_ASSUME,
 }
 
+PROPS["C13"] = {
+    "engine": "h3",
+    "level": "exploration",
+    "budget": {"quick": 40, "thorough": 600},
+    "runs_per_proc": 40,
+    "technique": "deterministic simulation of one real server: bursts of concurrent consumer-group subscribes (same and different consumer ids, epochs 1-3), client cancellations and self-ending subscriptions under seeded preemption, each followed by a quiescent point where a marker message must reach at most one group subscriber, then sequential older/equal/newer-epoch probes against the current subscriber",
+    "level_text": "seeded exploration of the interleavings between Subscribe's check-and-replace, the replaced subscription's loop exit and its registry clean-up; observable oracle (who receives the next message) plus sequential probes for the epoch fence",
+    "level_note": "activity is judged by message delivery at quiescent points, not by internal registry state",
+    "rule": "programs of 1-4 (thorough -8) rounds of 2-7 concurrent operations; distinct = distinct event-log hash; non-trivial = >=2 accepted group subscriptions and >=1 marker round",
+    "assumptions": H3_ASSUME,
+}
+
 NOT_APPLICABLE = [
     {"property_id": pid, "reason": "check not built yet in this round (engine under construction); see DESIGN.md section 9 build order"}
     for pid in ["C%02d" % i for i in range(1, 20)] if pid not in PROPS
